@@ -35,7 +35,7 @@ IdPres  == {"none", "form_ok", "query_ok", "form_wrong", "query_wrong", "form_em
 \* presentations of the client secret (dup_* = twice in the query string, hdrdup = two header lines)
 SecPres == {"none", "form_ok", "query_ok", "header_ok", "form_wrong", "query_wrong", "header_wrong", "form_empty",
             "formempty_headerok", "formwrong_headerok", "formok_headerwrong", "dup_wrong_ok", "dup_ok_wrong",
-            "formwrong_queryok", "hdrdup_wrong_ok"}
+            "formwrong_queryok", "hdrdup_wrong_ok", "dup_wrong_wrong", "hdrdup_wrong_wrong"}
 
 PayOf(ep) ==
    CASE ep = "redeem"   -> {"fresh", "refexp", "lifeexp", "cookiekey", "foreignkey", "mutated", "random", "missing"}
@@ -81,6 +81,8 @@ SecSeen(c) ==
      [] c.sec = "dup_ok_wrong"       -> "ok"
      [] c.sec = "formwrong_queryok"  -> IF bp THEN "wrong" ELSE "ok"
      [] c.sec = "hdrdup_wrong_ok"    -> "wrong"
+     [] c.sec = "dup_wrong_wrong"    -> "wrong"     \* repeated, and never the configured value: not a credential, however it is counted
+     [] c.sec = "hdrdup_wrong_wrong" -> "wrong"
 
 Out(st, idp, leak, exact) == [status |-> st, idp |-> idp, leak |-> leak, exact |-> exact]
 Refuse(st) == Out(st, {}, FALSE, FALSE)
